@@ -246,7 +246,9 @@ func runC10(c *Ctx) {
 	ruleRegister(c, "REGISTER") // every listener of the stopped generation is closed: none was overwritten in the bookkeeping
 	// a mutex of the listener bookkeeping left locked on an error path makes the cleanup of the failed generation — and with
 	// it every later reload — hang
-	ruleLockRelease(c, "UNLOCK", func(f *ssa.Function) bool { return strings.HasPrefix(eng.PkgPathOf(f), eng.Mod+"/cmd/") && !c.P.IsTestSupport(f) }, 3)
+	ruleLockRelease(c, "UNLOCK", func(f *ssa.Function) bool {
+		return strings.HasPrefix(eng.PkgPathOf(f), eng.Mod+"/cmd/") && !c.P.IsTestSupport(f)
+	}, 3)
 }
 
 // C10.VALIDATE
